@@ -83,7 +83,7 @@ def store_attr_h5data(obj: Any, group: Group) -> None:
     for name, value in data.items():
         dtype = None
         if isinstance(value, str):
-            value = value.encode("ascii", "ignore")
+            value = value.encode()
         elif isinstance(value, bytes):
             value = value.decode()
         elif isinstance(value, Mapping) and not isinstance(value, DesignSpace):
@@ -99,7 +99,7 @@ def store_attr_h5data(obj: Any, group: Group) -> None:
             isinstance(value, ndarray) and issubdtype(value.dtype, number)
         ):
             value = [
-                att.encode("ascii", "ignore") if isinstance(att, str) else att
+                att.encode() if isinstance(att, str) else att
                 for att in value
             ]
             dtype = h5py.special_dtype(vlen=str)
